@@ -211,6 +211,8 @@ var c18Corpus = []string{
 	`select ?s, ?o from ?g where { ?s "p"@[] ?o } order by ?o, ?s after 2006-01-02T15:04:05Z ;`,
 	`select ?s from ?g where { ?s "p"@[,] as ?x ?o } ;`,
 	`select ?s, ?p from ?g where { ?s ?p /u<a> } having (?s = /u<a>) or (?s = /u<b>) ;`,
+	// rejected by the hooks (the first projection is neither grouped nor aggregated): stays rejected
+	`select ?s, ?o from ?g where { ?s "p"@[] ?o } group by ?o ;`,
 }
 
 // C18 (c'): no state between statements: every ordered pair of corpus
@@ -373,7 +375,7 @@ func HarnessC18NoStateWitness() {
 	// the second statement: four representative corpus statements (a plain SELECT
 	// with binding subject and object, the SELECT with every tail clause, INSERT,
 	// CONSTRUCT) or, with ALL=1, the whole corpus
-	second := []int{0, 1, 2, 6}
+	second := []int{0, 1, 2, 6, 14}
 	if verif.Param("ALL", 0) == 1 {
 		second = nil
 		for i := range c18Corpus {
